@@ -25,6 +25,11 @@ pub struct Case {
     /// how the ontology is constructed (default: own v3 bytes)
     #[serde(default = "default_path")]
     pub path: PathSel,
+    /// operations applied one after the other to ONE set object (aggregates are read between the
+    /// in-place mutations): 0 read aggregates, 1 remove_modifier, 2 remove_obsolete,
+    /// 3 replace_obsolete, 4 extend by a term, 5 child_nodes, 6 continue on the with_replaced_obsolete copy
+    #[serde(default)]
+    pub ops: Vec<(u8, u16)>,
 }
 
 pub fn default_path() -> PathSel {
@@ -45,6 +50,45 @@ fn cmp_set(s: &HpoSet, want: &BTreeSet<u32>, what: &str) -> CheckResult {
         ensure!(s.get(i).map(|t| t.id().as_u32()) == Some(*id), format!("set/{what}/get"), "{what}: get({i}) != {id}");
     }
     ensure!(s.get(w.len()).is_none(), format!("set/{what}/get"), "{what}: get(len) is Some");
+    Ok(())
+}
+
+/// gene / omim / orpha id unions, category counts and information content of `set`, whose members are `members`
+fn check_aggregates(set: &HpoSet, members: &BTreeSet<u32>, m: &Model, cats: &BTreeSet<u32>, what: &str) -> CheckResult {
+    let mut unions: [BTreeSet<u32>; 3] = Default::default();
+    for k in 0..3 {
+        for t in members {
+            unions[k].extend(m.inh[k][m.i(*t)].iter().copied());
+        }
+    }
+    let got: [BTreeSet<u32>; 3] = guarded(|| {
+        [
+            set.gene_ids().iter().map(|x| x.as_u32()).collect(),
+            set.omim_disease_ids().iter().map(|x| x.as_u32()).collect(),
+            set.orpha_disease_ids().iter().map(|x| x.as_u32()).collect(),
+        ]
+    })
+    .map_err(|p| Failure { signature: format!("aggregate{what}/ids/panic"), message: p })?;
+    for k in 0..3 {
+        ensure!(got[k] == unions[k], format!("aggregate{what}/{}-ids", KIND_NAMES[k]), "{} ids of the set {members:?}: {:?}, union over members {:?}", KIND_NAMES[k], got[k], unions[k]);
+    }
+    let mut want: BTreeMap<u32, usize> = BTreeMap::new();
+    for t in members {
+        for cat in m.categories_with(*t, cats) {
+            *want.entry(cat).or_insert(0) += 1;
+        }
+    }
+    let got: BTreeMap<u32, usize> = guarded(|| set.categories().into_iter().map(|(k, v)| (k.as_u32(), v)).collect()).map_err(|p| Failure { signature: format!("aggregate{what}/categories/panic"), message: p })?;
+    ensure!(got == want, format!("aggregate{what}/categories"), "category counts of {members:?}: {got:?}, expected {want:?}");
+    match guarded(|| set.information_content()).map_err(|p| Failure { signature: format!("aggregate{what}/ic/panic"), message: p })? {
+        Ok(ic) => {
+            let wg = ic_of(unions[GENE].len(), m.direct[GENE].len());
+            let wo = ic_of(unions[OMIM].len(), m.direct[OMIM].len());
+            ensure!(close_f32(ic.gene(), wg, 1e-5) && ic.gene() >= 0.0, format!("aggregate{what}/ic-gene"), "gene IC of the set {members:?} = {}, -ln({}/{}) = {wg}", ic.gene(), unions[GENE].len(), m.direct[GENE].len());
+            ensure!(close_f32(ic.omim_disease(), wo, 1e-5) && ic.omim_disease() >= 0.0, format!("aggregate{what}/ic-omim"), "omim IC of the set {members:?} = {}, -ln({}/{}) = {wo}", ic.omim_disease(), unions[OMIM].len(), m.direct[OMIM].len());
+        }
+        Err(e) => return fail(format!("aggregate{what}/ic-error"), format!("information_content() = Err({e})")),
+    }
     Ok(())
 }
 
@@ -88,39 +132,56 @@ pub fn check(c: &Case, stats: &mut Stats) -> CheckResult {
     cmp_set(&s2, &want, "replace_obsolete")?;
     // the original set is untouched by the copying variants
     cmp_set(&set, &members, "original-after-copying-ops")?;
-    // unions
-    let mut unions: [BTreeSet<u32>; 3] = Default::default();
-    for k in 0..3 {
-        for t in &members {
-            unions[k].extend(m.inh[k][m.i(*t)].iter().copied());
+    check_aggregates(&set, &members, &m, &cats, "")?;
+    // ---- one object through a sequence of in-place mutations with aggregate reads in between
+    if !c.ops.is_empty() {
+        let mut cur: BTreeSet<u32> = members.clone();
+        let mut obj = HpoSet::new(&ont, group.clone());
+        let mut reads = 0;
+        let mut muts_after_read = 0;
+        for (step, (op, p)) in c.ops.iter().enumerate() {
+            stats.eval(1);
+            let r = guarded(|| match op % 7 {
+                0 => {}
+                1 => {
+                    obj.remove_modifier();
+                }
+                2 => obj.remove_obsolete(),
+                3 => obj.replace_obsolete(),
+                4 => {
+                    let t = m.ids[pick(*p, m.ids.len())];
+                    obj.extend(std::iter::once(ont.hpo(t).unwrap()));
+                }
+                5 => obj = obj.child_nodes(),
+                _ => obj = obj.with_replaced_obsolete(),
+            });
+            r.map_err(|p| Failure { signature: "sequence/panic".into(), message: format!("step {step} (op {}) panicked: {p}", op % 7) })?;
+            match op % 7 {
+                0 => reads += 1,
+                1 => cur.retain(|t| !m.is_modifier_with(*t, &mods)),
+                2 => cur.retain(|t| !m.obsolete[m.i(*t)]),
+                3 => cur = cur.iter().map(|t| m.replacement[m.i(*t)].unwrap_or(*t)).collect(),
+                4 => {
+                    cur.insert(m.ids[pick(*p, m.ids.len())]);
+                }
+                5 => {
+                    let c2 = cur.clone();
+                    cur.retain(|t| m.desc[m.i(*t)].intersection(&c2).next().is_none());
+                }
+                _ => cur = cur.iter().map(|t| m.replacement[m.i(*t)].unwrap_or(*t)).collect(),
+            }
+            if op % 7 != 0 && reads > 0 {
+                muts_after_read += 1;
+            }
+            // replacements may name ids that are not terms: such members cannot be in a set
+            ensure!(cur.iter().all(|t| m.has(*t)), "harness/bad-case", "sequence reaches an id that is not a term");
+            let what = format!("sequence/step{}-op{}", step.min(3), op % 7);
+            cmp_set(&obj, &cur, &what)?;
+            check_aggregates(&obj, &cur, &m, &cats, "/sequence")?;
         }
-    }
-    let got: [BTreeSet<u32>; 3] = [
-        set.gene_ids().iter().map(|x| x.as_u32()).collect(),
-        set.omim_disease_ids().iter().map(|x| x.as_u32()).collect(),
-        set.orpha_disease_ids().iter().map(|x| x.as_u32()).collect(),
-    ];
-    for k in 0..3 {
-        ensure!(got[k] == unions[k], format!("aggregate/{}-ids", KIND_NAMES[k]), "{} ids of the set {members:?}: {:?}, union over members {:?}", KIND_NAMES[k], got[k], unions[k]);
-    }
-    // categories
-    let mut want: BTreeMap<u32, usize> = BTreeMap::new();
-    for t in &members {
-        for cat in m.categories_with(*t, &cats) {
-            *want.entry(cat).or_insert(0) += 1;
+        if muts_after_read > 0 {
+            stats.label("sequence:mutation-after-aggregate-read");
         }
-    }
-    let got: BTreeMap<u32, usize> = guarded(|| set.categories().into_iter().map(|(k, v)| (k.as_u32(), v)).collect()).map_err(|p| Failure { signature: "aggregate/categories/panic".into(), message: p })?;
-    ensure!(got == want, "aggregate/categories", "category counts {got:?}, expected {want:?}");
-    // information content
-    match set.information_content() {
-        Ok(ic) => {
-            let wg = ic_of(unions[GENE].len(), m.direct[GENE].len());
-            let wo = ic_of(unions[OMIM].len(), m.direct[OMIM].len());
-            ensure!(close_f32(ic.gene(), wg, 1e-5) && ic.gene() >= 0.0, "aggregate/ic-gene", "gene IC of the set = {}, -ln({}/{}) = {wg}", ic.gene(), unions[GENE].len(), m.direct[GENE].len());
-            ensure!(close_f32(ic.omim_disease(), wo, 1e-5) && ic.omim_disease() >= 0.0, "aggregate/ic-omim", "omim IC of the set = {}, -ln({}/{}) = {wo}", ic.omim_disease(), unions[OMIM].len(), m.direct[OMIM].len());
-        }
-        Err(e) => return fail("aggregate/ic-error", format!("information_content() = Err({e})")),
     }
     // Extend
     let mut s3 = HpoSet::new(&ont, HpoGroup::new());
@@ -166,15 +227,17 @@ fn strategy(tier: Tier) -> BoxedStrategy<Case> {
     let cfg = GenCfg::small().terms(2, max).recs(6).standard().with_flags(false).names(NameMode::Plain);
     // large sets: more members than an id group stores inline (30)
     let big = GenCfg::small().terms(44, 72).recs(3).standard().with_flags(false).names(NameMode::Plain);
-    let mk = |(facts, picks, path): (Facts, Vec<u16>, PathSel)| {
+    let mk = |(facts, picks, path, ops): (Facts, Vec<u16>, PathSel, Vec<(u8, u16)>)| {
         let ids: Vec<u32> = facts.terms.iter().map(|t| t.id).collect();
         let members = picks.iter().map(|p| ids[pick(*p, ids.len())]).collect();
-        Case { facts, members, path }
+        Case { facts, members, path, ops }
     };
+    // half of the cases drive one set object through 1-8 operations
+    let ops = || prop_oneof![1 => Just(Vec::new()), 1 => vec((0u8..7, any::<u16>()), 1..=8)];
     let paths = || prop_oneof![6 => Just(PathSel::Bin(3)), 2 => Just(PathSel::Bin(2)), 1 => Just(PathSel::Bin(1)), 2 => Just(PathSel::Jax), 1 => Just(PathSel::RoundTrip), 1 => Just(PathSel::BuilderDefaults)];
     prop_oneof![
-        12 => (gen::facts(cfg), vec(any::<u16>(), 0..12), paths()).prop_map(mk),
-        1 => (gen::facts(big), vec(any::<u16>(), 30..90), paths()).prop_map(mk),
+        12 => (gen::facts(cfg), vec(any::<u16>(), 0..12), paths(), ops()).prop_map(mk),
+        1 => (gen::facts(big), vec(any::<u16>(), 30..90), paths(), ops()).prop_map(mk),
     ]
     .boxed()
 }
@@ -184,7 +247,7 @@ impl Property for C13 {
         "C13"
     }
     fn rule(&self) -> String {
-        "Generated: ontologies (built with defaults through own v1/v2/v3 bytes, as_bytes round trip, JAX files or the Builder, so categories and modifier roots are defined) with obsolete terms, replacements pointing to existing terms (members, non-members, the term itself), modifier branches and records of all kinds; member sets of 0-12 terms drawn with repetition (empty sets, ancestors together with descendants), one case in 13 with 44-72 terms and 30-90 picks (more than the 30 members an id group stores inline). Oracle on the reference model: child_nodes = members without a member among their descendants; without_modifier/remove_modifier drop exactly members that are or descend from a modifier root; without_obsolete/remove_obsolete drop exactly flagged members; with_replaced_obsolete/replace_obsolete map exactly the members naming a replacement (collisions shrink the set); gene/omim/orpha id sets = unions over members; categories() = per-category member counts; information_content gene/omim = -ln(|union|/N) (0 rule; 1e-5); each in-place method equals its copying twin; len/is_empty/contains/get/iter/Extend agree with the member set; copying methods leave the set untouched. evaluations = set operations. Non-trivial = set contains an ancestor/descendant pair, an obsolete and a replaced member; distinct by hash of the case.".into()
+        "Generated: ontologies (built with defaults through own v1/v2/v3 bytes, as_bytes round trip, JAX files or the Builder, so categories and modifier roots are defined) with obsolete terms, replacements pointing to existing terms (members, non-members, the term itself), modifier branches and records of all kinds; member sets of 0-12 terms drawn with repetition (empty sets, ancestors together with descendants), one case in 13 with 44-72 terms and 30-90 picks (more than the 30 members an id group stores inline). Oracle on the reference model: child_nodes = members without a member among their descendants; without_modifier/remove_modifier drop exactly members that are or descend from a modifier root; without_obsolete/remove_obsolete drop exactly flagged members; with_replaced_obsolete/replace_obsolete map exactly the members naming a replacement (collisions shrink the set); gene/omim/orpha id sets = unions over members; categories() = per-category member counts; information_content gene/omim = -ln(|union|/N) (0 rule; 1e-5); each in-place method equals its copying twin; len/is_empty/contains/get/iter/Extend agree with the member set; copying methods leave the set untouched. Half of the cases additionally drive ONE set object through 1-8 operations (read aggregates / remove_modifier / remove_obsolete / replace_obsolete / extend / child_nodes / continue on a copy), comparing members and all aggregates with the model after every step (state kept inside the object between calls). evaluations = set operations. Non-trivial = set contains an ancestor/descendant pair, an obsolete and a replaced member; distinct by hash of the case.".into()
     }
     fn assumptions(&self) -> Vec<String> {
         vec!["replacements name existing terms (a set holding an id that is not a term is outside the documented domain of HpoSet)".into()]
@@ -196,7 +259,7 @@ impl Property for C13 {
         }
     }
     fn required_labels(&self, _tier: Tier) -> Vec<&'static str> {
-        vec!["nontrivial", "members>30", "empty-set", "ancestor-and-descendant-members", "replacement-collides-with-member", "modifier-member", "modifier-root-member", "replaced-but-not-obsolete-member"]
+        vec!["nontrivial", "members>30", "empty-set", "ancestor-and-descendant-members", "replacement-collides-with-member", "modifier-member", "modifier-root-member", "replaced-but-not-obsolete-member", "sequence:mutation-after-aggregate-read"]
     }
     fn run_generated(&self, tier: Tier, seed: u64, n: u64, stats: &mut Stats) -> Option<(Value, Failure)> {
         run_typed(strategy(tier), seed, n, stats, check)
